@@ -114,6 +114,32 @@ func (p *Pipe) CloseWithError(err error) { p.closeWithError(&p.err, err, nil) }
 // waiting for unread data.
 func (p *Pipe) BreakWithError(err error) { p.closeWithError(&p.breakErr, err, nil) }
 
+// BreakWithErrorAndLen is like BreakWithError and also reports how many unread
+// bytes were buffered at that moment. They are never handed to a reader: the
+// count and the break happen under one acquisition of the pipe's lock, so a
+// concurrent Read either got its bytes before (and they are not counted) or
+// gets err.
+func (p *Pipe) BreakWithErrorAndLen(err error) int {
+	if err == nil {
+		panic("err must be non-nil")
+	}
+	p.mu.Lock()
+	defer p.mu.Unlock()
+	if p.c.L == nil {
+		p.c.L = &p.mu
+	}
+	defer p.c.Signal()
+	n := 0
+	if p.b != nil && p.breakErr == nil {
+		n = p.b.Len()
+	}
+	if p.breakErr == nil {
+		p.breakErr = err
+		p.closeDoneLocked()
+	}
+	return n
+}
+
 // CloseWithErrorAndCode is like CloseWithError but also sets some code to run
 // in the caller's goroutine before returning the error.
 func (p *Pipe) CloseWithErrorAndCode(err error, fn func()) { p.closeWithError(&p.err, err, fn) }
